@@ -7,6 +7,7 @@ import Psa.StdEval
 import Psa.Webhook
 import Psa.ConfigIO
 import Psa.FixtureCheck
+import Psa.MetricsIO
 import Psa.Generated.Tables
 /-! psa-driver: one JSON object per input line, one JSON object per output line. -/
 open Lean PSA PSA.IO
@@ -80,6 +81,7 @@ def handle (j : Json) : R Json := do
     let revs := shippedRegistry.evaluate l v
     return Json.mkObj [("ok", Json.bool (fixtureOk f)), ("results", Json.arr ((revs.zip rs).map (fun (r, x) =>
       (jresult x).setObjVal! "rev" (jstr (revName r)))).toArray)]
+  | "metricCounts" => metricCountsOp j
   | "loadConfig" => loadConfigOp j
   | "registry" =>
     let cs ← arrOf regCheck (fldD j "checks")
